@@ -640,3 +640,71 @@ func pointWithHistory(rng *gen.Rng, m *oracle.Pt) (*Point, string) {
 	}
 	return obj, how0 + " then " + how
 }
+
+// gapValue draws k in [0, 2^256-p) = [0, 2^32+977): the values whose alias k+p
+// still fits 32 bytes.  The classes follow the structure of p's low limb
+// 0xfffffffe_fffffc2f (k = 977 is where k+p carries into the upper half of that
+// limb, k = 2^32+976 is 2^256-1), so a canonical-encoding test that compares in
+// halves, bytes or limbs and gets one comparison wrong is hit whichever it is.
+func gapValue(r *gen.Rng) *big.Int {
+	const gap = uint64(1)<<32 + 977
+	var k uint64
+	switch r.Intn(8) {
+	case 0:
+		k = 977 + uint64(r.Intn(9)) - 4
+	case 1:
+		k = uint64(1)<<32 + uint64(r.Intn(9)) - 4
+	case 2:
+		k = gap - 1 - uint64(r.Intn(600))
+	case 3:
+		k = uint64(1)<<uint(r.Intn(33)) + uint64(r.Intn(3)) - 1
+	case 4:
+		k = 977 + uint64(1)<<uint(r.Intn(32)) + uint64(r.Intn(3)) - 1
+	case 5:
+		k = uint64(r.Intn(1 << 16))
+	default:
+		k = r.U64() % gap
+	}
+	return new(big.Int).SetUint64(k % gap)
+}
+
+// gapPointX returns a curve point whose x lies in [0, 2^256-p) (so that x+p is a
+// 32-byte alias of a VALID coordinate), x drawn by gapValue and moved upwards to
+// the next abscissa on the curve.
+func gapPointX(r *gen.Rng) *oracle.Pt {
+	k := gapValue(r)
+	lim := new(big.Int).Sub(oracle.Two256, bigP)
+	for i := 0; i < 64; i++ {
+		if k.Cmp(lim) >= 0 {
+			k.SetInt64(int64(r.Intn(1000)))
+		}
+		if p := oracle.LiftX(k, uint(r.Intn(2))); p != nil {
+			return p
+		}
+		k = new(big.Int).Add(k, big.NewInt(1))
+	}
+	return oracle.LiftX(big.NewInt(1), 0)
+}
+
+// gapPointY is the same for the ordinate (x = cube root of y^2 - 7, exists for a third of the y).
+func gapPointY(r *gen.Rng) *oracle.Pt {
+	k := gapValue(r)
+	lim := new(big.Int).Sub(oracle.Two256, bigP)
+	pm1o3 := new(big.Int).Div(new(big.Int).Sub(bigP, big.NewInt(1)), big.NewInt(3))
+	for i := 0; i < 200; i++ {
+		if k.Cmp(lim) >= 0 {
+			k.SetInt64(int64(1 + r.Intn(1000)))
+		}
+		c := oracle.SubM(new(big.Int).Mul(k, k), big.NewInt(7), bigP)
+		if c.Sign() != 0 && new(big.Int).Exp(c, pm1o3, bigP).Cmp(big.NewInt(1)) == 0 {
+			if x := cubeRootP(c); x != nil {
+				p := &oracle.Pt{X: x, Y: new(big.Int).Set(k)}
+				if oracle.OnCurve(p) {
+					return p
+				}
+			}
+		}
+		k = new(big.Int).Add(k, big.NewInt(1))
+	}
+	return nil
+}
